@@ -272,6 +272,42 @@ def check_partial_removals(chk, rule, rel, cls, memos, attr_hook=None):
                found=f"kept: {stale}")
 
 
+def check_memo_params(chk, rule, rel, cls, memos):
+    """An attribute memo (``if hasattr(self, '_x'): return ...``) answers every later call whatever its arguments: the getter's own
+    parameters must not influence the cached value (or must be part of the memo test)."""
+    mod = chk.repo.module(rel)
+    for name, info in sorted(memos.items()):
+        if info[2] != "attr":
+            continue
+        fn = mod.funcs.get(f"{cls}.{info[0]}")
+        if fn is None:
+            continue
+        params = [a.arg for a in fn.args.args[1:] + fn.args.kwonlyargs] + ([fn.args.kwarg.arg] if fn.args.kwarg else [])
+        if not params:
+            continue
+        used = set()
+        for n in ast.walk(fn):
+            if isinstance(n, ast.Call) and isinstance(n.func, ast.Attribute) and isinstance(n.func.value, ast.Name) and n.func.value.id in ("LOG", "logging"):
+                continue
+            if isinstance(n, ast.Name) and isinstance(n.ctx, ast.Load) and n.id in params:
+                used.add(n.id)
+        # names inside logging calls only do not count
+        logged = set()
+        for n in ast.walk(fn):
+            if isinstance(n, ast.Call) and isinstance(n.func, ast.Attribute) and isinstance(n.func.value, ast.Name) and n.func.value.id in ("LOG", "logging"):
+                logged |= {x.id for x in ast.walk(n) if isinstance(x, ast.Name)}
+        tested = set()
+        for n in ast.walk(fn):
+            if isinstance(n, ast.If):
+                src = ast.unparse(n.test)
+                if name in src:
+                    tested |= {x.id for x in ast.walk(n.test) if isinstance(x, ast.Name)}
+        loose = sorted(p for p in used if p not in tested)
+        chk.ob(rule, rel, f"{cls}.{info[0]}", f"the memo {name} answers a later call only for the arguments it was computed with "
+               "(the getter's parameters are part of the memo test, or do not influence the cached value)", not loose, node=fn,
+               fingerprint=f"memo-args:{info[0]}", expected="a memo keyed by (or compared with) the arguments", found=f"parameters {loose} are used to compute the value but ignored by the memo test")
+
+
 def check_memo_key(chk, rule, rel, cls, name, info):
     """A keyed memo (dictionary entry or last-value memo) must be keyed by everything its value is computed from."""
     if len(info) <= 4 or info[2] not in ("dict", "keyed"):
